@@ -164,8 +164,11 @@ bool Json::Private::readToken()
               break;
             default:
               value.append('\\');
-              value.append(*pos.pos);
-              ++pos.pos;
+              if(*pos.pos != '\r' && *pos.pos != '\n') // line breaks are counted (and skipped) by the loop
+              {
+                value.append(*pos.pos);
+                ++pos.pos;
+              }
               break;
             }
           }
